@@ -249,6 +249,8 @@ def run_C09(case):
     def final(ctx):
         for scen in case.get("pagers", []):
             run_pager(ctx, scen)
+        if case.get("turn_pagers"):
+            run_pagers_in_turns(ctx, case["turn_pagers"])
 
     return run_sequential(case, sweep_C09, prop="C09", final=final)
 
@@ -296,6 +298,9 @@ def gen_C09(rng, tier, seed):
             between.append(ops)
         pagers.append({"ref": ref, "k": rng.choice([1, 1, 1, 2, 2, 3, 5]), "crawled_only": rng.random() < 0.25, "rev": rng.random() < 0.3, "between": between})
     case["pagers"] = pagers
+    if rng.random() < 0.3:
+        # two paginations advanced in turns on the same index, no write in between
+        case["turn_pagers"] = {"mode": rng.choice(["two_orders", "two_orders", "no_id"]), "k": [rng.choice([1, 1, 2, 3]), rng.choice([1, 1, 2, 3])], "crawled_only": rng.random() < 0.2}
     return case
 
 
@@ -449,3 +454,64 @@ def run_linkpager(ctx, scen):
                 ctx.res.stats["ops_between_calls"] += 1
     if calls >= 2 and ctx.res.stats["ops_between_calls"]:
         ctx.probe("linkpager_with_requests_between_calls")
+
+
+def run_pagers_in_turns(ctx, scen):
+    """Two paginations served in turns (two users browsing): the same webentity with its prefixes
+    given in two orders, or two webentities both asked without an id.  Nothing is written in
+    between, so each must return exactly its own chain."""
+    import random as _random
+
+    m = ctx.model
+    p2w = m.page_to_we()
+    cnt = Counter(x for x in p2w.values() if x is not None)
+    ranked = sorted(cnt, key=lambda x: (-cnt[x], x))
+    if not ranked:
+        return
+    co = scen.get("crawled_only", False)
+    if scen["mode"] == "two_orders":
+        multi = [w for w in ranked if len(m.we_prefixes(w)) > 1]
+        if not multi:
+            return
+        w = multi[0]
+        a = m.we_prefixes(w)
+        pagers = [[w, a, scen["k"][0]], [w, list(reversed(a)), scen["k"][1]]]
+    else:
+        if len(ranked) < 2:
+            return
+        pagers = [[None, m.we_prefixes(ranked[0]), scen["k"][0]], [None, m.we_prefixes(ranked[1]), scen["k"][1]]]
+        for i, w in enumerate(ranked[:2]):
+            pagers[i].append(w)
+
+    def expected(w, prefs):
+        out = []
+        for p_ in prefs:
+            out.extend(sorted(l for l in m.pages if m.E(l) == p_ and m.pref.get(p_) == w and (m.pages[l] or not co)))
+        return out
+
+    exp = []
+    for i, pg in enumerate(pagers):
+        w_true = pg[3] if len(pg) > 3 else pg[0]
+        exp.append(expected(w_true, pg[1]))
+    rng = _random.Random(ctx.case.get("obs_seed", 0) ^ 0xA17)
+    tokens = [None, None]
+    seen = [[], []]
+    done = [False, False]
+    calls = 0
+    while not all(done):
+        i = rng.choice([j for j in (0, 1) if not done[j]])
+        wid, prefs, k = pagers[i][0], pagers[i][1], pagers[i][2]
+        r = guarded(ctx, "C09.in_turns", ctx.t.paginate_webentity_pages, wid, prefs, page_count=k, pagination_token=tokens[i], crawled_only=co)
+        ctx.check("C09.in_turns", r[0] == "ok", lambda: "pager %d refused (token %r)" % (i, tokens[i]))
+        a = r[1]
+        seen[i].extend(p_["lru"] for p_ in a["pages"])
+        calls += 1
+        if a["done"]:
+            done[i] = True
+        else:
+            tokens[i] = a["token"]
+        if calls > len(m.pages) * 2 + 8:
+            ctx.fail("C09.in_turns", "two pagers advanced in turns did not finish within %d calls" % calls)
+    for i in (0, 1):
+        ctx.check("C09.in_turns", seen[i] == exp[i], lambda: "pagination %d (id %r, prefixes %s, page size %d), advanced in turns with another one: got %s expected %s" % (i, pagers[i][0], short(pagers[i][1]), pagers[i][2], short(seen[i], 500), short(exp[i], 500)))
+    ctx.probe("two_paginations_in_turns_" + scen["mode"])
